@@ -29,7 +29,7 @@ def mon (_ : Unit) (op ans : List String) : Unit × String :=
 
 def model (_ : Unit) (toks : List String) : Unit × String :=
   match parseOp toks with
-  | some o => ((), s!"ok {hexOfBytes (want o)}")
+  | some o => ((), " ".intercalate ["ok", hexOfBytes (want o)])
   | none => ((), "bad-op")
 
 def main (args : List String) : IO UInt32 :=
